@@ -26,6 +26,7 @@ func main() {
 		fs.StringVar(&o.Only, "only", "", "only this function")
 		fs.StringVar(&o.KeepSMT, "keep", "", "keep SMT files in dir")
 		fs.IntVar(&o.TimeoutS, "timeout", 0, "per-obligation timeout (s)")
+		fs.StringVar(&o.Out, "out", "", "write evidence/ and replays/ under this directory instead of -verif")
 		fs.Parse(os.Args[2:])
 		if s := os.Getenv("VERIF_SEED"); s != "" {
 			o.Seed, _ = strconv.Atoi(s)
